@@ -1548,7 +1548,11 @@ def _replay(payload):
             shape = payload['shape']
             res = run_items([(shape, payload.get('row', 1))])[shape]
             d = res['detail']
-            if res['status'] in ('bad', 'reject', 'textform'):
+            fk = payload.get('finding_key') or ''
+            # a known finding is about one kind of failure: a grouping key is not kept alive by a text-form difference
+            want = ('textform',) if fk.startswith('C01.concat') else ('bad',) if fk.startswith('C01.group') else \
+                ('reject',) if fk.startswith('C01.reject') else ('bad', 'reject', 'textform')
+            if res['status'] in want:
                 return {'fails': True, 'text': f"{d['formula']} [{d['mode']}, sheet {d['sheet']}, operands {d['operands']}] -> "
                                                f"{d['observed']}; expected {d['expected']}; emitted: {d['emitted']}"}
             return {'fails': False, 'text': f'{instantiate(shape, payload.get("row", 1))}: {res["evaluations"]} evaluations agree '
